@@ -115,11 +115,12 @@ Print Assumptions C15_direct_equals_indirect.
 
 (* names at the end of a path = names at the start iff every conversion on it carries names;
    otherwise they do not depend on the names at the start at all *)
-Theorem C15_names_survive_iff_carried : forall V es t (c : @cpanel V) t' c',
+Theorem C15_names_survive_iff_carried : forall V es t (c : @cpanel V) t' (c' : @cpanel V),
   sem_path es (t, c) = Some (t', c') ->
   (all_carry es t = true -> c_names c' = c_names c) /\
   (all_carry es t = false ->
-   forall c2 t2 c2', sem_path es (t, c2) = Some (t2, c2') -> c_names c2' = c_names c').
+   forall (c2 : @cpanel V) t2 (c2' : @cpanel V),
+     sem_path es (t, c2) = Some (t2, c2') -> c_names c2' = c_names c').
 Proof. exact @names_survive_iff_carried. Qed.
 Print Assumptions C15_names_survive_iff_carried.
 
